@@ -18,6 +18,7 @@ import XalanModel.C04.IndentTextProofs
 import XalanModel.C04.IndentTreeProofs
 import XalanModel.C04.Transcoder
 import XalanModel.C04.RawMarker
+import XalanModel.C04.StreamProofs
 /-!
 # C04 — XML output is well-formed and parses back to exactly the result tree
 
@@ -77,33 +78,47 @@ example : (0 : Nat) < 512 ∧ ∀ us, Item.atom us ∈ [Item.one 60, .atom [0xC3
   refine ⟨by decide, ?_⟩
   intro us h; simp at h; subst h; decide
 
-/-- **stream_transparent.** `XalanOutputStream`'s second buffer: the chunks handed to the transcoder
-concatenate to the writer's chunks, and each is a concatenation of whole writer chunks — together
-with `buffer_transparent`: no transcoder call sees a split surrogate pair. -/
-theorem stream_transparent (cap : Nat) (wc sc : List (List Nat)) (h : streamChunks cap wc = some sc) :
-    sc.flatten = wc.flatten ∧ ∃ groups : List (List (List Nat)), groups.flatten = wc ∧ sc = groups.map List.flatten := by
-  unfold streamChunks streamChunksF at h
-  have he : Sink.emptyF cap true = Sink.empty cap := rfl
-  rw [he] at h
-  cases hr : Sink.run (wc.map Item.bulk) (Sink.empty cap) with
-  | none => simp [hr] at h
-  | some s' =>
-    simp only [hr, Option.map_some, Option.some.injEq] at h
-    subst h
-    obtain ⟨h1, groups, hg, hc⟩ := buffer_transparent _ _ _ hr
-    have hu : ∀ l : List (List Nat), unitsOf (l.map Item.bulk) = l.flatten := by
-      intro l; induction l with
-      | nil => rfl
-      | cons a t ih => simp [unitsOf, Item.units, List.flatMap_cons] at *; exact ih
-    refine ⟨by rw [h1, hu], groups.map (fun g => g.map Item.units), ?_, ?_⟩
-    · have : (wc.map Item.bulk).map Item.units = wc := by
-        rw [List.map_map]; conv => rhs; rw [← List.map_id wc]
-        apply List.map_congr_left; intro a _; rfl
-      rw [← this, ← hg, List.map_flatten]
-    · rw [hc, List.map_map]
-      apply List.map_congr_left
-      intro g _
-      simp [unitsOf, List.flatMap_def]
+/-- the hold-back condition of `XalanOutputStream::flushBuffer(bool)` read term by term from the source is the intended
+one: asked to hold back, a transcoder in use, last unit a leading surrogate — and nothing else -/
+theorem generated_stream_holdback : streamHoldBack = holdIntended := by
+  funext hold a last n c; rfl
+
+/-- **stream_concat.** `XalanOutputStream`'s buffer as the working tree has it (hold-back included; the buffer may hold
+`cap + 1` units): for every sequence of runs written and the final `flush()`, the transcoder calls concatenate to exactly
+the runs, in order. -/
+theorem stream_concat (asUTF16 : Bool) (ws : List (List Nat)) :
+    (streamRun (StreamCfg.generated asUTF16) ws).flatten = ws.flatten :=
+  streamRun_flatten (StreamCfg.generated asUTF16) (show bulkFlushStream = true by decide) (by intro a l n c; rw [show (StreamCfg.generated asUTF16).hb = streamHoldBack from rfl, generated_stream_holdback]; rfl) ws
+
+/-- **stream_no_split_pair.** With the intended hold-back, for every buffer size and every sequence of runs whose
+concatenation is well-formed UTF-16 (no leading surrogate followed by another, none at the very end, every trailing
+surrogate directly after a leading one) — however the runs cut it, in particular between the halves of a pair, as the
+legacy `FormatterToXML` does: every transcoder call is non-empty, does not end with a leading surrogate and does not
+start with a trailing one. -/
+theorem stream_no_split_pair (cap : Nat) (ws : List (List Nat))
+    (h1 : noAdj ws.flatten = true) (h2 : endOk ws.flatten = true) (h3 : okTrail false ws.flatten = true) :
+    ∀ c ∈ streamRun (StreamCfg.intended cap false) ws, c ≠ [] ∧ endOk c = true ∧ startOk c = true := by
+  have hc := streamRun_chunks_ok cap ws h1 h2
+  have hf := streamRun_flatten (StreamCfg.intended cap false) rfl (by intro a l n c; rfl) ws
+  intro c hmem
+  exact ⟨(hc c hmem).1, (hc c hmem).2, chunks_start_ok _ hc false (by rw [hf]; exact h3) rfl c hmem⟩
+
+/-- the working tree's stream is the intended one (so `stream_no_split_pair` is about the code) -/
+theorem generated_stream_is_intended (asUTF16 : Bool) :
+    StreamCfg.generated asUTF16 = StreamCfg.intended streamBufferSize asUTF16 := by
+  simp only [StreamCfg.generated, StreamCfg.intended, generated_stream_holdback]
+  congr
+
+/-- why the hold-back must not depend on the fill level: a buffer of 4, pairs `H L` four units apart.  After the first
+hold-back the buffer holds 5 units and ends with `H` again; a condition `… && size ≤ cap` lets that `H` go to the
+transcoder alone -/
+theorem stream_holdback_counterexample :
+    streamRun ⟨4, false, true, fun hold a last n c => holdIntended hold a last n c && decide (n ≤ c)⟩
+        [[97, 97, 97, 0xD800], [0xDC00, 97, 97, 0xD800], [0xDC00, 97]]
+      = [[97, 97, 97], [0xD800, 0xDC00, 97, 97, 0xD800], [0xDC00, 97]] ∧
+    streamRun (StreamCfg.intended 4 false) [[97, 97, 97, 0xD800], [0xDC00, 97, 97, 0xD800], [0xDC00, 97]]
+      = [[97, 97, 97], [0xD800, 0xDC00, 97, 97], [0xD800, 0xDC00, 97]] := by
+  decide
 
 /-- the flags the translator read from the bulk `write(chars, n)` of `XalanUTF8Writer` / `XalanUTF16Writer`
 (`flushBuffer()` in front of `m_writer.write(theChars, 0, theLength)`) and from `XalanOutputStream::write`
@@ -113,13 +128,13 @@ theorem generated_bulk_flushes : bulkFlushUTF8 = true ∧ bulkFlushUTF16 = true 
 /-- **output_is_concatenation_of_writes** (refinement of both buffer layers, as the working tree has them, to the
 unbuffered specification).  For every writer, every sequence of write calls of every kind — single units, atomic
 multi-unit stores, bulk `write(chars, n)` of *every* length (fits / needs a flush, then fits / longer than the buffer:
-flush + direct write), `flushIfFull` — and the final `flushBuffer`: the units handed to the transcoder (`sc`, through the
-writer's 512-entry buffer and `XalanOutputStream`'s buffer, both with the bulk-write shape the translator read) are
+flush + direct write), `flushIfFull` — and the final `flushBuffer`: the units handed to the transcoder (through the
+writer's 512-entry buffer and `XalanOutputStream`'s buffer with its hold-back, both with the shapes the translator read) are
 exactly the units of all write calls in call order; no call's units overtake an earlier call's. -/
-theorem output_is_concatenation_of_writes (k : WK) (items : List Item) (wc sc : List (List Nat))
-    (h1 : writerChunks k items = .ok wc) (h2 : streamChunksF streamBufferSize bulkFlushStream wc = some sc) :
-    wc.flatten = unitsOf items ∧ sc.flatten = unitsOf items := by
-  obtain ⟨g8, g16, gs⟩ := generated_bulk_flushes
+theorem output_is_concatenation_of_writes (k : WK) (items : List Item) (wc : List (List Nat)) (asUTF16 : Bool)
+    (h1 : writerChunks k items = .ok wc) :
+    wc.flatten = unitsOf items ∧ (streamRun (StreamCfg.generated asUTF16) wc).flatten = unitsOf items := by
+  obtain ⟨g8, g16, _⟩ := generated_bulk_flushes
   have hk : bulkFlush k = true := by cases k <;> simp [bulkFlush, g8, g16]
   have hw : wc.flatten = unitsOf items := by
     unfold writerChunks at h1
@@ -132,8 +147,7 @@ theorem output_is_concatenation_of_writes (k : WK) (items : List Item) (wc sc : 
       simp only [hr, Except.ok.injEq] at h1
       subst h1
       exact (buffer_transparent items _ s' hr).1
-  rw [gs] at h2
-  exact ⟨hw, by rw [(stream_transparent _ wc sc h2).1, hw]⟩
+  exact ⟨hw, by rw [stream_concat, hw]⟩
 
 /-- why the flush matters: without it (`fbd = false`) a run longer than the buffer is delivered *ahead* of what is
 still buffered — one unit, then a 4-unit run, capacity 3: the run comes out first -/
